@@ -491,6 +491,21 @@ func c08Property(t *rapid.T, st *Stats) {
 			time.Sleep(d)
 			s.quiesce("sleep")
 			e.class("sleep")
+			// expiry must actually happen: a session idle for twice the grace period (the cache prunes at 1.1x) is gone
+			if s.grace > 0 {
+				for _, x := range s.live("") {
+					if idle := time.Since(x.lastUse); idle >= 2*s.grace {
+						r := s.do("GET", x.path, nil, nil)
+						s.bad(r, "status GET")
+						if r.code == 204 {
+							s.fail("session-not-expired", "session %s of %s has been idle for %v (grace period %v) and still answers its status query with 204", x.id[:6], x.repo, idle, s.grace)
+						}
+						if !s.unknown(x, "status GET after idle "+idle.String(), r) {
+							s.fail("status-mismatch", "idle session: status GET answered %d", r.code)
+						}
+					}
+				}
+			}
 			s.residue("after sleep")
 		},
 		"": func(*rapid.T) {
